@@ -143,6 +143,29 @@ def regex_equivalent(lit_json_a, lit_json_b):
     return _RX_CACHE[k]
 
 
+def regex_single_bytes(lit_json):
+    """the set of byte values a regex literal (byte-oriented, Unicode mode off) accepts as a complete one-byte input,
+    read off its DFA by the rxcheck helper; None with a reason on failure"""
+    import os, subprocess
+    k = ("bytes", lit_json)
+    if k in _RX_CACHE:
+        return _RX_CACHE[k]
+    exe = os.path.join(os.path.dirname(os.path.dirname(os.path.abspath(__file__))), "rxcheck", "target", "release", "rxcheck")
+    if not os.path.exists(exe):
+        _RX_CACHE[k] = (None, "rxcheck helper not built (run setup.sh)")
+        return _RX_CACHE[k]
+    try:
+        out = subprocess.run([exe], input=f"bytes\t{lit_json}\n", capture_output=True, text=True, timeout=60).stdout.strip()
+    except Exception as e:  # pragma: no cover
+        out = f"err {e}"
+    if out.startswith("bytes"):
+        h = out[5:].strip()
+        _RX_CACHE[k] = (frozenset(int(h[i:i + 2], 16) for i in range(0, len(h), 2)), "")
+    else:
+        _RX_CACHE[k] = (None, out)
+    return _RX_CACHE[k]
+
+
 def _ascii_hit_position(base, e):
     """`e` renders the byte position of a one-byte (ASCII) hit found in `base` itself: such a position p and
     p + 1 are char boundaries of `base` not beyond its length"""
